@@ -372,7 +372,7 @@ def check_neighbor(ctx):
         for dec, val in value_cases(fv, n.stmt, n.stmt.value, stop=(dn or "", xn or "")):
             got.add((truth_of(dec, "subtract_radius"), U(val)))
     want_plain = f"{dn}[:, 1]"
-    want_sub = f"{dn}[:, 1] - self.data['radius'][{xn}].sum(axis=1)"
+    want_sub = f"{dn}[:, 1] - np.sum(self.data['radius'][{xn}], axis=1)"
     oksel = (False, want_plain) in got and (True, want_sub) in got and not any(v in (want_plain, want_sub) and ((s is True and v == want_plain) or (s is False and v == want_sub)) for s, v in got)
     ctx.decide(okq and oksel, "NEIGHBOR", site, (fi, q[0]) if q else fi,
                "two nearest hits per droplet (itself and its nearest neighbour); column 1 is returned, minus both radii on request",
